@@ -32,7 +32,9 @@ from cnfgen.formula.cnf import CNF
 RULE = ("lex: ASCII texts over digits/signs/underscores/letters and every Python whitespace character; "
         "w: hand-built degenerate formulas (empty, empty clauses, unused variables, repeated literals), random formulas, "
         "formulas built by real cnfgen command lines incl. transformations, each with/without header and varnames, "
-        "header values and labels with unusual characters, through StringIO and through a real file; "
+        "header values and labels with unusual characters, through StringIO and through a real file; formula objects with a "
+        "history (harness/histlib.py) rendered after EVERY growth step (variables without clauses, clauses without variables, groups, "
+        "raised counts, batches, header edits), the same rendering / label lists / transformations / a solver run having happened before; "
         "r: valid texts in random layouts and their mutations (token deletion/duplication, sign flips, counts off by one, "
         "second p line, p after clauses, blank/comment lines inside clauses, +1, 1_0, tabs, CRLF, truncation, garbage tokens); "
         "distinct = distinct request line; non-trivial = at least one clause / one non-blank line")
